@@ -50,11 +50,13 @@ def parseKind (s : String) : Option Kind :=
   | "special" => some .special | "colon" => some .colon | "regular" => some .regular
   | "func" => some .func | "brace" => some .brace | "notfound" => some .notFound
   | "empty" => some .empty | "exec" => some .exec | "paren" => some .paren
-  | "cmdexec" => some .commandExec | "dot" => some .dot | "dotx" => some .dotMissing | _ => none
+  | "cmdexec" => some .commandExec | "dot" => some .dot | "dotx" => some .dotMissing
+  | "execnf" => some .execNotFound | "execne" => some .execNoExec | "cmdexecnf" => some .commandExecNotFound
+  | _ => none
 
 /-- initial world and table: standard descriptors (read-write, appending), then the pre-opened ones -/
-def initial (nc : Bool) (lim : Option Nat) (pre : List String) : Option (World × FdTable) := do
-  let w0 : World := stdWorld nc
+def initial (nc : Bool) (lim : Option Nat) (pre : List String) (inter : Bool := false) : Option (World × FdTable) := do
+  let w0 : World := stdWorld nc inter
   let t0 : FdTable := stdTable
   let rec go (w : World) (t : FdTable) : List String → Option (World × FdTable)
     | [] => some (w, t)
@@ -122,19 +124,22 @@ def parseCmds : List String → Option (List (Kind × List Redir))
 def runLine (line : String) : String :=
   match splitTrim line "|" with
   | hdr :: cmdFields =>
-    let parsed : Option (Bool × Option Nat × List String × List (Kind × List Redir)) := do
-      match words hdr with
+    let parsed : Option (Bool × Option Nat × List String × List (Kind × List Redir) × Bool) := do
+      let ws := words hdr
+      let inter := ws.length == 4 && ws[3]? == some "i"
+      match ws.take 3 with
       | [nc, lim, pre] =>
+        if ws.length != 3 && !inter then none else
         let nc ← nc.toNat?
         let lim ← (if lim = "-" then some none else lim.toNat?.map some)
         let pre := if pre = "-" then [] else pre.splitOn ","
         let cmds ← parseCmds cmdFields
-        if cmds.isEmpty then none else pure (nc != 0, lim, pre, cmds)
+        if cmds.isEmpty then none else pure (nc != 0, lim, pre, cmds, inter)
       | _ => none
     match parsed with
     | none => "bad-case\t-"
-    | some (nc, lim, pre, cmds) =>
-      match initial nc lim pre with
+    | some (nc, lim, pre, cmds, inter) =>
+      match initial nc lim pre inter with
       | none => "bad-case\t-"
       | some (w0, t0) =>
         let trs := runScript w0 t0 0 cmds
